@@ -161,7 +161,69 @@ func init() {
 		func(a []*Term) *Term {
 			return Implies(And(Le(zero, a[1]), Le(zero, a[2])), Eq(powT(a[0], Add(a[1], a[2])), Mul(powT(a[0], a[1]), powT(a[0], a[2]))))
 		}, "x^(m+n) = x^m * x^n")
+	// ---- bit-level facts about powers of two (a power of two is written as a divisor of 2^64) ----
+	W := Const(W64)
+	one := ConstI(1)
+	addLean("and_mask", "and_mask_dvd", []string{"x", "p"},
+		func(a []*Term) *Term {
+			return Implies(And(Le(zero, a[0]), Lt(zero, a[1]), Eq(Mod(W, a[1]), zero)),
+				Eq(App("bvand", SInt, a[0], Sub(a[1], one)), Mod(a[0], a[1])))
+		}, "p a power of two (p | 2^64) => x & (p-1) = x mod p")
+	addLean("or_pow2", "or_add_pow2", []string{"a", "p"},
+		func(a []*Term) *Term {
+			return Implies(And(Le(zero, a[0]), Lt(a[0], a[1]), Eq(Mod(W, a[1]), zero)),
+				Eq(App("bvor", SInt, a[0], a[1]), Add(a[0], a[1])))
+		}, "p a power of two (p | 2^64), a < p => a | p = a + p")
+	addLean("cong_dvd", "cong_dvd", []string{"a", "b", "w", "p"},
+		func(a []*Term) *Term {
+			return Implies(And(congT(a[0], a[1], a[2]), Lt(zero, a[3]), Eq(Mod(a[2], a[3]), zero)), congT(a[0], a[1], a[3]))
+		}, "a ≡ b (mod w), p | w => a ≡ b (mod p)")
+	// Go's truncated remainder (the encoding of exec.go: sign of the dividend) against the residue
+	addLean("tmod_shift", "tmod_shift", []string{"k", "M"},
+		func(a []*Term) *Term {
+			k, M := a[0], a[1]
+			absK := Ite(Le(zero, k), k, Neg(k))
+			r := Ite(Le(zero, k), Mod(absK, M), Neg(Mod(absK, M)))
+			return Implies(Lt(zero, M), And(Lt(Neg(M), r), Lt(r, M), Eq(Mod(Add(r, M), M), Mod(k, M)), Le(zero, Mod(k, M)), Lt(Mod(k, M), M)))
+		}, "0 < M, r = k %go M  =>  -M < r < M, (r + M) mod M = k mod M in [0, M)")
+	addLean("mod_range", "mod_range", []string{"a", "M"},
+		func(a []*Term) *Term {
+			x, M := a[0], a[1]
+			return Implies(Lt(zero, M), And(
+				Implies(And(Le(zero, x), Lt(x, M)), Eq(Mod(x, M), x)),
+				Implies(And(Le(M, x), Lt(x, MulC(big2, M))), Eq(Mod(x, M), Sub(x, M)))))
+		}, "0 < M: a in [0,M) => a mod M = a;  a in [M,2M) => a mod M = a - M")
+	// one iteration of the bit-by-bit discrete logarithm of SolveDiscreteLogGaloisElement
+	// (Lean: dlog_step_cases with m = n-3): N = 2^n, E = 2^(n-3), g ≡ 5^k (mod N), k < 2^(n-2),
+	// x | E, c = E/x, ku = (k mod c)*x, r1 ≡ 5^ku, r2 ≡ g^x, both reduced
+	addLean("dlog_step", "dlog_step_cases", []string{"n", "k", "x", "g", "r1", "r2"},
+		func(a []*Term) *Term {
+			n, k, x, g, r1, r2 := a[0], a[1], a[2], a[3], a[4], a[5]
+			N := App("pow2", SInt, n)
+			E := App("pow2", SInt, Sub(n, ConstI(3)))
+			Q := App("pow2", SInt, Sub(n, two))
+			c := Div(E, x)
+			ku := Mul(Mod(k, c), x)
+			b := Mod(Div(k, c), two)
+			x2 := Div(x, two)
+			next := Mul(Mod(k, Div(E, x2)), x2)
+			hyp := And(Le(ConstI(3), n), Lt(zero, x), Eq(Mod(E, x), zero), Le(zero, k), Lt(k, Q),
+				Eq(N, MulC(big8, E)), Eq(Q, MulC(big2, E)), Lt(zero, E),
+				congT(g, powT(ConstI(5), k), N),
+				congT(r1, powT(ConstI(5), ku), N), Le(zero, r1), Lt(r1, N),
+				congT(r2, powT(g, x), N), Le(zero, r2), Lt(r2, N))
+			concl := And(Lt(ku, E), Le(zero, ku),
+				Iff(Eq(r1, r2), Eq(b, zero)),
+				Implies(Eq(x, one), And(Implies(Eq(b, zero), Eq(ku, k)), Implies(Eq(b, one), Eq(Add(ku, E), k)))),
+				Implies(Lt(one, x), And(Eq(Mod(x, two), zero), Eq(Mod(E, x2), zero),
+					Implies(Eq(b, zero), Eq(Div(ku, two), next)),
+					Implies(Eq(b, one), Eq(Div(Add(ku, E), two), next)))))
+			return Implies(hyp, concl)
+		}, "one step of the Pohlig-Hellman logarithm of a power of 5 modulo 2^n")
 }
+
+var big8 = big.NewInt(8)
+var big2 = big.NewInt(2)
 
 func useLemma(name string, args ...*Term) *Term {
 	usedLemmas[name] = true
@@ -178,6 +240,10 @@ func init() {
 	addCongRule(congRule{name: "cong_refl", params: []string{"a", "q"},
 		concl: func(a []*Term) triple { return triple{a[0], a[0]} },
 		wit:   func(a, k []*Term) *Term { return zero }})
+	addCongRule(congRule{name: "cong_mod", params: []string{"a", "q"},
+		side:  func(a []*Term) *Term { return Lt(zero, a[1]) },
+		concl: func(a []*Term) triple { return triple{Mod(a[0], a[1]), a[0]} },
+		wit:   func(a, k []*Term) *Term { return Neg(Div(a[0], a[1])) }, doc: "0 < q  =>  a mod q ≡ a (mod q)"})
 	addCongRule(congRule{name: "cong_sym", params: []string{"a", "b", "q"},
 		hyps:  func(a []*Term) []triple { return []triple{{a[0], a[1]}} },
 		concl: func(a []*Term) triple { return triple{a[1], a[0]} },
